@@ -1,11 +1,13 @@
 #pragma once
 #include <Arduino.h>
 class LiquidCrystal : public Print { public: int c = 0, r = 0, cols = 16, rows = 2; std::vector<std::string> cells;
+  int id = next_id()++;   // displays are numbered in construction (= declaration) order; the first one prints "L:", the k-th "L<k>:"
+  static int &next_id() { static int n = 0; return n; }
   LiquidCrystal(int, int, int, int, int, int) {} LiquidCrystal(int, int, int, int, int, int, int) {}
   void begin(int cc, int rr) { printf("LB:%d:%d\n", cc, rr); cols = cc; rows = rr; cells.assign(rr, std::string(cc, ' ')); }
   void clear() { for (auto &x : cells) x.assign(cols, ' '); c = r = 0; dump(); } void home() { c = r = 0; }
   void display() {} void noDisplay() {} void setCursor(int cc, int rr) { c = cc; r = rr; }
-  void createChar(int, uint8_t *) {}
-  void put(const std::string &s) { for (char ch : s) { if (r >= 0 && r < rows && c >= 0 && c < cols) cells[r][c] = ch; else printf("LCD-OUT-OF-RANGE:%d:%d\n", c, r); c++; } dump(); }
-  void dump() { for (int i = 0; i < rows; ++i) printf("L:%d:%s\n", i, cells[i].c_str()); }
+  void createChar(int slot, uint8_t *rows) { printf("G:%d:%d,%d,%d,%d,%d,%d,%d,%d\n", slot, rows[0], rows[1], rows[2], rows[3], rows[4], rows[5], rows[6], rows[7]); }
+  void put(const std::string &s) { for (char ch : s) { if (r >= 0 && r < rows && c >= 0 && c < cols) cells[r][c] = ch; else printf("LCD-OUT-OF-RANGE:%d:%d:display%d\n", c, r, id); c++; } dump(); }
+  void dump() { for (int i = 0; i < rows; ++i) { if (id == 0) printf("L:%d:%s\n", i, cells[i].c_str()); else printf("L%d:%d:%s\n", id, i, cells[i].c_str()); } }
   size_t print(const String &x) { put(x.s); return 1; } size_t print(const char *x) { put(x); return 1; } size_t print(char ch) { put(std::string(1, ch)); return 1; } };
